@@ -134,7 +134,8 @@ class Site(object):
                 if (late and not l.get('inline')) or l.get('implicit'):
                     continue
                 if l.get('css'):
-                    parts.append('<link rel="stylesheet" href="%s">' % href)
+                    # (attribute values of rel are ASCII case-insensitive: HTML 4.6.6)
+                    parts.append(('<LINK REL="StyleSheet" HREF="%s">' if l.get('upper') else '<link rel="stylesheet" href="%s">') % href)
                 elif l.get('frame'):
                     parts.append('<iframe src="%s"></iframe>' % href)
                 elif l.get('inline'):
@@ -157,7 +158,10 @@ class Site(object):
             parts = []
             for l in d.get('links', []):
                 href = l.get('spelling') or self.url_text(l['to'])
-                parts.append('@import url("%s");' % href if l.get('imp') else '.c%d { background: url("%s"); }' % (l['to'], href))
+                if l.get('upper'):      # CSS keywords and function names are ASCII case-insensitive (css-syntax 4.3.4)
+                    parts.append('@IMPORT URL("%s");' % href if l.get('imp') else '.c%d { BACKGROUND: URL("%s"); }' % (l['to'], href))
+                else:
+                    parts.append('@import url("%s");' % href if l.get('imp') else '.c%d { background: url("%s"); }' % (l['to'], href))
             return 'page', _http(200, 'OK', '\n'.join(parts).encode(), 'text/css')
         if kind == 'redirect':
             loc = d.get('location') or self.url_text(d['to'])
